@@ -26,9 +26,14 @@ type vfFb struct {
 }
 
 func vfNewFb(quickDepths int) *vfFb {
-	f := &vfFb{}
 	// quick: 8 and 16 bpp (Fill: also 24, which has its own fill routine); thorough: all five depths
-	f.bpp = [5]uint32{8, 16, 24, 15, 32}[zzverif.Choice("bpp", zzverif.Param("depths", quickDepths, 5))]
+	return vfNewFbDepth([5]uint32{8, 16, 24, 15, 32}[zzverif.Choice("bpp", zzverif.Param("depths", quickDepths, 5))], nil)
+}
+
+// vfNewFbDepth: ci == nil selects the usual mask layout of the depth (quick) or a symbolic one (thorough).
+func vfNewFbDepth(bpp uint32, ci *multiboot.FramebufferRGBColorInfo) *vfFb {
+	f := &vfFb{}
+	f.bpp = bpp
 	if zzverif.Choice("font", 2) == 0 {
 		f.gw, f.bpr = 8, 1
 	} else {
@@ -43,7 +48,9 @@ func vfNewFb(quickDepths int) *vfFb {
 	f.width = f.cols*f.gw + f.rc
 	f.height = f.offY + f.rows*f.gh + f.rr
 	f.pitch = f.width*f.bytesPP + f.pad
-	if zzverif.Tier() == 1 {
+	if ci != nil {
+		f.ci = ci
+	} else if zzverif.Tier() == 1 {
 		// thorough: arbitrary mask layout
 		f.ci = &multiboot.FramebufferRGBColorInfo{
 			RedPosition: zzverif.U8("rpos"), RedMaskSize: zzverif.U8("rsize"),
@@ -315,6 +322,33 @@ func Verif_C19_fb_palette() {
 		} else {
 			zzverif.Assert(f.checkFrame(i), "a pixel of another colour is untouched")
 		}
+	}
+	zzverif.Reach("done")
+}
+
+// 32 bpp with the colour channels in the upper three bytes (R at bit 24, G at 16, B at 8 - the RGBX layout): a pixel
+// is four bytes and the red channel lives in the fourth. Fill one cell and compare all four bytes of each of its
+// pixels with the packed colour.
+func Verif_C19_fb_pack32() {
+	f := vfNewFbDepth(32, &multiboot.FramebufferRGBColorInfo{RedPosition: 24, RedMaskSize: 8, GreenPosition: 16, GreenMaskSize: 8, BluePosition: 8, BlueMaskSize: 8})
+	bg := vfColour("bg")
+	// KF-C19-5: packColor24 returns three bytes and the 24/32 bpp paths store three: a channel at bit 24 or above
+	// is never written.
+	zzverif.Known("KF-C19-5", true)
+	panicked := zzverif.Catch(func() { f.cons.Fill(1, 1, 1, 1, 0, bg) })
+	zzverif.Assert(!panicked, "Fill never touches memory outside the framebuffer")
+	if panicked {
+		return
+	}
+	for i := 0; i < f.n; i++ {
+		pix, cx, cy, _, _, comp := f.classify(i)
+		if !pix || cx != 1 || cy != 1 {
+			zzverif.Assert(f.checkFrame(i), "bytes outside the filled cell are untouched")
+			continue
+		}
+		c := f.cons.palette[bg].(color.RGBA)
+		packed := uint32(c.R)<<24 | uint32(c.G)<<16 | uint32(c.B)<<8
+		zzverif.Assert(f.cons.fb[i] == byte(packed>>(8*comp)), "every byte of a 32 bpp pixel holds its part of the packed colour, including the fourth")
 	}
 	zzverif.Reach("done")
 }
